@@ -221,6 +221,27 @@ pub fn run(args: &[String]) -> i32 {
             }
         }
     }
+    // 3c. splits of a reference cycle: an enum that contains itself only through another item, the two in one file or in
+    //     two (whatever is computed about the cycle must not depend on where a file boundary falls); every language
+    {
+        let its = [
+            "#[typeshare]\n#[serde(tag = \"type\", content = \"content\")]\npub enum Expr { Negate(Box<Unary>), Many { l: Vec<Unary> }, Lit(u32) }\n".to_string(),
+            "#[typeshare]\npub struct Unary { pub operand: Expr, pub n: u32 }\n".to_string(),
+            "#[typeshare]\npub struct Other { pub u: Option<Unary> }\n".to_string(),
+        ];
+        for part in set_partitions(3) {
+            let k = part.len();
+            for perm in permutations(k) {
+                for &lang in &ALL_LANGS {
+                    let stems: Vec<&str> = STEMS[..k].to_vec();
+                    let files: Vec<(String, String)> = part.iter().enumerate().map(|(b, blk)| (stems[b].to_string(), blk.iter().map(|i| its[*i].clone()).collect::<Vec<_>>().join("\n"))).collect();
+                    let mut schedule = e3::start_barrier(&stems);
+                    schedule.extend(perm.iter().map(|i| format!("send:{}", stems[*i])));
+                    jobs.push(Job { class: format!("split-cycle|{}", lang.name()), files, schedule, expect_events: None, lang, multi: false, threads: k, family: "splits-of-a-reference-cycle" });
+                }
+            }
+        }
+    }
     // 4. thread counts 1..16, free running (no forced schedule)
     for t in 1..=16usize {
         for &lang in &[Lang::TypeScript, Lang::Go] {
